@@ -21,7 +21,7 @@ RULE = ("case = (solver x noise cell, fixed|adaptive, ts/dt layout, SDE seed); n
 ASSUMPTIONS = ["float64 central differences eps=1e-6: truncation+rounding error ~1e-9 relative; threshold 1e-6",
                "adaptive: 'away from accept/reject boundaries' is realised by freezing the recorded schedule"]
 REQUIRED_COUNTERS = ["fixed_runs", "adaptive_runs", "adaptive_rejections_replayed", "error_control_calls",
-                     "unaligned_outputs"]
+                     "unaligned_outputs", "wrt_params_only", "wrt_y0_only", "wrt_both", "plain_object_sde"]
 THRESHOLDS = {"rel": 1e-6}
 
 
@@ -62,21 +62,40 @@ def run_case(case):
     y0v = torch.randn(B, d, generator=gen)
     w = torch.randn(len(tsl), B, d, generator=gen)
     params = list(sde.parameters())
+    # who is differentiated: y0 and the parameters / the parameters only (y0 a plain constant tensor) / y0 only;
+    # and how the SDE is handed over: the nn.Module itself or a plain object (not an nn.Module) with the same f and g,
+    # whose differentiable inputs are therefore not discoverable through .parameters()
+    wrt = rng.choice(["both", "both", "params_only", "params_only", "y0_only"])
+    plain = rng.random() < 0.3
+    cnt["wrt_" + wrt] = 1
+    cnt["plain_object_sde"] = int(plain)
     dirs = [torch.randn(B, d, generator=gen)] + [torch.randn(p.shape, generator=gen) for p in params]
+    if wrt == "params_only":
+        dirs[0] = torch.zeros(B, d)
+    if wrt == "y0_only":
+        dirs = [dirs[0]] + [torch.zeros(p.shape) for p in params]
     akw = dict(adaptive=True, rtol=rng.choice([1e-2, 1e-3]), atol=rng.choice([1e-3, 1e-4]), dt_min=1e-5) \
         if case["adaptive"] else {}
 
     def loss(s, y0, probe):
         bm = torchsde.BrownianInterval(t0=tsl[0], t1=tsl[-1], size=(B, s.m), entropy=entropy,
                                        levy_area_approximation=levy)
+        obj = zoo.Plain(s.f, s.g, s.noise_type, s.sde_type) if plain else s
         with probe.installed():
-            ys = zoo.solve(cell, s, y0, ts, dt, bm=bm, **akw)
+            ys = zoo.solve(cell, obj, y0, ts, dt, bm=bm, **akw)
         return (ys * w).sum()
 
     nominal = probes.SolverProbe(keep_states=False)
-    y0 = y0v.clone().requires_grad_(True)
+    y0 = y0v.clone().requires_grad_(wrt != "params_only")
     L = loss(sde, y0, nominal)
-    grads = torch.autograd.grad(L, [y0] + params, allow_unused=True)
+    ctx0 = f"cell={zoo.cell_name(cell)} adaptive={case['adaptive']} wrt={wrt} plain_object={plain}"
+    if not L.requires_grad:
+        return {"violations": [{"mechanism": "solution_not_attached_to_autograd_graph",
+                                "detail": f"sdeint output does not require grad although inputs do: {ctx0}"}],
+                "counters": cnt}
+    wanted = ([y0] if wrt != "params_only" else []) + (params if wrt != "y0_only" else [])
+    gl = list(torch.autograd.grad(L, wanted, allow_unused=True))
+    grads = ([gl.pop(0)] if wrt != "params_only" else [None]) + (gl if wrt != "y0_only" else [None] * len(params))
     an = sum(float((g * v).sum()) for g, v in zip(grads, dirs) if g is not None)
     rec_err = [e["returned"] for e in nominal.errors]
     rec_upd = [(u["new_step"]) for u in nominal.updates]
@@ -100,7 +119,7 @@ def run_case(case):
             raise RuntimeError("replayed schedule has a different length")
         return val, pr
 
-    ctx = f"cell={zoo.cell_name(cell)} adaptive={case['adaptive']} ts={tsl} dt={dt} B={B} d={d} m={sde.m}"
+    ctx = f"{ctx0} ts={tsl} dt={dt} B={B} d={d} m={sde.m}"
     try:
         (lp, prp), (lm, prm) = shifted(+1), shifted(-1)
     except (RuntimeError, IndexError) as e:
